@@ -232,6 +232,7 @@ tpt_msg_one_by_one_proxy_cb(tpt_p tpt, void *udata) {
 		return;
 	/* All except caller thread done / error. */
 	if (0 == ((TP_BMSG_F_SELF_SKIP | TP_MSG_F_SELF_DIRECT) & msg_data->flags) &&
+	    tpt_get_tp(msg_data->tpt) == tpt_get_tp(tpt) &&
 	    msg_data->tpt != tpt) { /* Try shedule caller thread. */
 		msg_data->cur_thr_idx = tp_thread_count_max_get(tpt_get_tp(tpt));
 		msg_data->send_msg_cnt ++;
@@ -340,6 +341,7 @@ tpt_msg_broadcast_send__int(tp_p tp, tpt_p src,
 
 	if (NULL != msg_data &&
 	    NULL != src &&
+	    tpt_get_tp(src) == tp && /* Thread from other pool never skipped. */
 	    0 != (TP_BMSG_F_SELF_SKIP & flags)) {
 		msg_data->active_thr_count --;
 	}
@@ -397,7 +399,8 @@ tpt_msg_bsend_ex(tp_p tp, tpt_p src, uint32_t flags,
 	}
 	/* 1 thread specific. */
 	if (1 == threads_max &&
-	    NULL != src) { /* Only if thread send broadcast to self. */
+	    NULL != src &&
+	    tpt_get_tp(src) == tp) { /* Only if thread send broadcast to self. */
 		if (0 != (TP_BMSG_F_SELF_SKIP & flags))
 			goto err_out; /* Nothink to do. */
 		if (0 == (TP_BMSG_F_SYNC & flags)) {
@@ -508,7 +511,7 @@ tpt_msg_cbsend(tp_p tp, tpt_p src, uint32_t flags,
 	threads_max = tp_thread_count_max_get(tp);
 	/* 1 thread specific. */
 	if (1 == threads_max &&
-	    NULL != src) { /* Only if thread send broadcast to self. */
+	    tpt_get_tp(src) == tp) { /* Only if thread send broadcast to self. */
 		if (0 != (TP_BMSG_F_SELF_SKIP & flags)) {
 			done_cb(src, 0, 0, udata); /* Nothink to do. */
 		} else { /* Cant async call from self. */
@@ -528,13 +531,15 @@ tpt_msg_cbsend(tp_p tp, tpt_p src, uint32_t flags,
 	msg_data->done_cb = done_cb;
 
 	if (0 != (TP_CBMSG_F_ONE_BY_ONE & flags)) {
-		if (TP_MSG_F_SELF_DIRECT == ((TP_BMSG_F_SELF_SKIP | TP_MSG_F_SELF_DIRECT) & flags)) {
+		if (tpt_get_tp(src) == tp &&
+		    TP_MSG_F_SELF_DIRECT == ((TP_BMSG_F_SELF_SKIP | TP_MSG_F_SELF_DIRECT) & flags)) {
 			msg_data->send_msg_cnt ++;
 			msg_cb(src, udata);
 		}
 		if (0 == tpt_msg_one_by_one_send_next__int(tp, src, msg_data))
 			return (0); /* OK, sheduled. */
-		if (TP_MSG_F_SELF_DIRECT == ((TP_BMSG_F_SELF_SKIP | TP_MSG_F_SELF_DIRECT) & flags)) {
+		if (tpt_get_tp(src) == tp &&
+		    TP_MSG_F_SELF_DIRECT == ((TP_BMSG_F_SELF_SKIP | TP_MSG_F_SELF_DIRECT) & flags)) {
 			done_cb(src, msg_data->send_msg_cnt,
 			    msg_data->error_cnt, udata);
 			return (0);
